@@ -38,7 +38,7 @@ let parse_ifaces s : msg list list =
           | Some i -> String.sub is (i + 1) (String.length is - i - 1)   (* drop `<node id>=` *)
           | None -> is) in
       List.map (fun t -> match String.split_on_char ':' t with
-          | k :: sz :: cy :: _ -> { m_key = cz k; m_size = cz sz; m_cycle = cz cy }
+          | k :: sz :: cy :: _ -> plain (cz k) (cz sz) (cz cy)   (* msg_rest: see load_ignores_delay *)
           | _ -> failwith ("bad message " ^ t)) (fields is))
       (String.split_on_char '|' s)
 
@@ -119,7 +119,7 @@ let () =
         match String.split_on_char ';' line with
         | ["L"; baud; defs; builder; ifaces; obs] ->
           (try
-             let typ = (match String.split_on_char ',' builder with [_; t] -> cz t | _ -> Z0) in
+             let typ = (match String.split_on_char ',' builder with _ :: t :: _ -> cz t | _ -> Z0) in
              let b = { b_typ = typ; b_baud = cz baud; b_ifaces = parse_ifaces ifaces } in
              let ds = List.map cz (String.split_on_char ',' defs) in
              let models = session b ds in
